@@ -1135,6 +1135,9 @@ def _emission(q):
     return out
 
 
+_QUOTE_DEFAULT_OPEN = [False]
+
+
 def _quote_role(piece):
     """('open'|'close'|'estart'|'eend'|None, attribute source) of an inserted piece"""
     from ..pattern import match_expr
@@ -1144,9 +1147,13 @@ def _quote_role(piece):
     b = match_expr('attr_quote($a, $c, True)', e) or match_expr('attr_quote($a, $c, is_open=True)', e)
     if b is not None:
         return 'open', src_of(b['a'])
-    b = match_expr('attr_quote($a, $c, False)', e) or match_expr('attr_quote($a, $c)', e) or match_expr('attr_quote($a, $c, is_open=False)', e)
+    b = match_expr('attr_quote($a, $c, False)', e) or match_expr('attr_quote($a, $c, is_open=False)', e)
     if b is not None:
         return 'close', src_of(b['a'])
+    b = match_expr('attr_quote($a, $c)', e)
+    if b is not None:
+        # the role of a call that leaves is_open out is decided by the parameter's default
+        return ('open' if _QUOTE_DEFAULT_OPEN[0] else 'close'), src_of(b['a'])
     if piece[1] == 'expression_start':
         return 'estart', None
     if piece[1] == 'expression_end':
@@ -1187,6 +1194,9 @@ def _check_quoted_value(res, rname, f, seq, where, what):
 def path_emit_attr(p, res):
     from .. import sympath, shape, norm
     from ..pattern import match_expr
+    aq = p.func('output_stream.attr_quote')
+    dflt = aq.defaults.get(aq.params[2]) if len(aq.params) > 2 else None
+    _QUOTE_DEFAULT_OPEN[0] = bool(p.try_const(aq, dflt)) if dflt is not None else False
     f = p.func('markup.format.html.push_attribute')
     try:
         paths = sympath.feasible(sympath.summaries(p, f, inline=True, select=lambda call, g: _emits(g)))
